@@ -84,6 +84,9 @@ def gen_raw(rng, d, sub=False):
 def gen(seed, index):
     rng = rng_for(PID, seed, index)
     k = rng.choice(["cmp", "cmp", "arith", "arith", "durhist", "parse", "parse", "seconds"])
+    if rng.random() < 0.04:
+        # the configuration dimension: another resolution than the default, values that need more digits than it has
+        return ["cfg", rng.choice([12, 12, 8, 3, 11]), rng.choice([1, 2, 5, 7, 10, 22]), rng.choice([3, 7, 9, 11, 13])]
     if k == "cmp":
         d = gen_dur(rng)
         q, r = gen_raw(rng, d, sub=True)
@@ -101,6 +104,13 @@ def gen(seed, index):
             res = {"add": a + b, "sub": a - b, "mul": a * b, "div": (a / b) if b else 0}[op] * TICK
             if near_tie(res) or abs(res) > 10**15:
                 continue
+            if r[1] in ("int", "float", "frac") and rng.random() < 0.35:
+                # the plain number on the LEFT of the operator: b op a
+                if op == "div" and a == 0:
+                    return ["rarith", op, d, q, r]
+                res2 = {"add": b + a, "sub": b - a, "mul": b * a, "div": (b / a) if a else 0}[op] * TICK
+                if not (near_tie(res2) or abs(res2) > 10**15):
+                    return ["rarith", op, d, q, r]
             return ["arith", op, d, q, r]
         return ["arith", "add", d, q, r]
     if k == "durhist":
@@ -155,13 +165,13 @@ def model_case(case):
     k = case[0]
     if k == "cmp":
         return case[:3]
-    if k == "arith":
+    if k in ("arith", "rarith"):
         return case[:4]
     if k in ("parse_d", "parse_t"):
         return case[:2]
     if k in ("parsemut_d", "parsemut_t"):
         return ["parse" + k[-2:], case[1]]
-    if k == "seconds":
+    if k in ("seconds", "cfg"):
         return ["cmp", ["D", 0], ["q", 0, 1]]
     return case
 
@@ -173,13 +183,13 @@ def is_f5(case):
 
 def compare(case, mo, io):
     k = case[0]
-    if k == "seconds":
+    if k in ("seconds", "cfg"):
         return None
     if is_f5(case) and is_err(io) and io[1] == "TypeError":
         return "[F5] malformed point list raises TypeError"
     if is_err(mo) or is_err(io):
         return None if mo[:2] == io[:2] else f"outcome differs: model {sx.show(mo[:2])} impl {sx.show(io[:2])}"
-    n = {"cmp": 7, "arith": 3}.get(k, None)
+    n = {"cmp": 7, "arith": 3, "rarith": 3}.get(k, None)
     a, b = (mo[:n], io[:n]) if n else (mo, [x for x in io if not (isinstance(x, list) and x and x[0] == "flags")])
     return None if a == b else f"model {sx.show(a)} impl {sx.show(b)}"
 
@@ -196,6 +206,25 @@ def oracle(case, io, mo):
             return f"operators < <= == != >= > give {got} for beat counts {float(a)} and {float(b)}, expected {exp}"
         if len(io) > 7:
             return "reflected comparison (number on the left) disagrees: " + sx.show(io[7])
+        return None
+    if k == "rarith":
+        op = case[1]
+        a, b = Fraction(case[2][1], TICK), Fraction(int(case[3][1]), int(case[3][2]))
+        if op == "div" and a == 0:
+            return None if is_err(io) and io[1] == "ZeroDivisionError" else "division by a duration of 0 did not raise ZeroDivisionError"
+        if is_err(io):
+            return f"a plain number on the left of the operator: arithmetic raised {io[1]}"
+        if str(io[1]).startswith("not-a-duration"):
+            return f"a plain number on the left of the operator: the result is a {str(io[1])[15:]}, not a duration"
+        res = {"add": b + a, "sub": b - a, "mul": b * a, "div": (b / a) if a else 0}[op] * TICK
+        if near_tie(res):
+            return None
+        if int(io[2]) != rhe(res):
+            return f"{float(b)} {op} duration {float(a)} gives {int(io[2])} ticks, the arithmetic result rounded to 10 digits is {rhe(res)}"
+        if io[1] != case[2][0]:
+            return "the result is not a duration of the duration operand's kind"
+        if len(io) > 3:
+            return "arithmetic side effects: " + sx.show(io[3])
         return None
     if k == "arith":
         op = case[1]
@@ -267,6 +296,19 @@ def oracle(case, io, mo):
             if io[1] != exp_kind:
                 return f"parsed to a {io[1]} duration, expected {exp_kind}"
         return None
+    if k == "cfg":
+        if is_err(io):
+            return f"with ROUND_DURATION_TO_N_DIGITS = {case[1]}: raised {io[1]}"
+        names = ["the direct duration reports the number rounded to the configured digits", "the ratio duration reports the number rounded to the configured digits",
+                 "the two kinds compare equal", "neither is smaller than the other", "the direct duration equals the plain number",
+                 "the ratio duration equals the plain number", "their sum is the sum at the configured resolution"]
+        want = ["1", "1", "1", "0", None, None, "1"]      # (a plain number is compared exactly, at any resolution: not judged)
+        for n, g_, w in zip(names, io[1:8], want):
+            if w is None:
+                continue
+            if g_ != w:
+                return f"with ROUND_DURATION_TO_N_DIGITS = {case[1]} and the value {case[2]}/{case[3]}: not ({n})"
+        return None
     if k == "seconds":
         if is_err(io):
             return f"raised {io[1]}"
@@ -283,6 +325,8 @@ def oracle(case, io, mo):
 
 def nontrivial(case, io):
     k = case[0]
+    if k == "rarith":
+        return True
     if k in ("cmp", "arith"):
         r = case[-1]
         return r[1] != "dur" or r[2] != case[1 if k == "cmp" else 2][0]
@@ -301,8 +345,8 @@ def stats(results):
         c[k] += 1
         if k in ("parse_d", "parse_t", "parsemut_d", "parsemut_t"):
             c["parse:" + case[1][0]] += 1
-        if k == "arith":
-            c["arith:" + case[1]] += 1
+        if k in ("arith", "rarith"):
+            c[k + ":" + case[1]] += 1
         if k in ("cmp", "arith"):
             c["other:" + case[-1][1]] += 1
     return dict(sorted(c.items()))
